@@ -207,8 +207,31 @@ func (set *TemplateSet) FromBytes(tpl []byte) (*Template, error) {
 	return newTemplateString(set, tpl)
 }
 
+// Templates may pull in other templates (include, extends, import, ssi) up
+// to this depth; a template that pulls in itself would otherwise recurse until
+// the stack is exhausted.
+const maxTemplateNesting = 1000
+
 // FromFile loads a template from a filename and returns a Template instance.
 func (set *TemplateSet) FromFile(filename string) (*Template, error) {
+	return set.fromFileNested(filename, nil)
+}
+
+// fromFileNested loads a template on behalf of the template which pulls it
+// in (nil: on behalf of the application).
+func (set *TemplateSet) fromFileNested(filename string, pulledInBy *Template) (*Template, error) {
+	depth := 0
+	if pulledInBy != nil {
+		depth = pulledInBy.depth + 1
+		if depth > maxTemplateNesting {
+			return nil, &Error{
+				Filename:  filename,
+				Sender:    "nesting",
+				OrigError: fmt.Errorf("maximum template nesting depth reached (max is %v)", maxTemplateNesting),
+			}
+		}
+	}
+
 	atomic.StoreInt32(&set.firstTemplateCreated, 1)
 
 	_, _, fd, err := set.resolveTemplate(nil, filename)
@@ -228,7 +251,7 @@ func (set *TemplateSet) FromFile(filename string) (*Template, error) {
 		}
 	}
 
-	return newTemplate(set, filename, false, buf)
+	return newNestedTemplate(set, filename, false, buf, depth)
 }
 
 // RenderTemplateString is a shortcut and renders a template string directly.
